@@ -3,7 +3,8 @@
 //     cargo test --offline --features async-io --test repro_async
 // Every test feeds THE SAME request bytes to Server::handle_message and Server::async_handle_message (same filesystem
 // object, a FuseDevWriter over a fresh temp file standing for /dev/fuse) and asserts that the two observable behaviours
-// DIFFER in the way described - i.e. the tests pass on a tree that has the deviation and fail once it is fixed.
+// (bytes on the device, filesystem calls, Ok/Err of the handler) are THE SAME - the tests fail on a tree that has the
+// deviation described above each of them (all five failed on 7055914) and pass once it is fixed.
 use std::ffi::CStr;
 use std::future::Future;
 use std::io::{self, Read, Seek, SeekFrom};
@@ -105,7 +106,11 @@ fn run(asynch: bool, opcode: u32, hdr_len: u32, body: &[u8], wcap: usize) -> Out
     let calls = fs.calls.lock().unwrap().clone();
     Outcome { dev, ret_ok: ret.is_ok(), calls }
 }
-fn err_of(b: &[u8]) -> i32 { i32::from_le_bytes([b[4], b[5], b[6], b[7]]) }
+fn same(s: &Outcome, a: &Outcome) {
+    assert_eq!(s.calls, a.calls, "filesystem calls differ (sync / async)");
+    assert_eq!(s.ret_ok, a.ret_ok, "handler result differs (sync / async)");
+    assert_eq!(s.dev, a.dev, "bytes on the device differ (sync / async)");
+}
 
 // A1: an over-long FORGET (header len > MAX_BUFFER_SIZE + BUFFER_HEADER_SIZE).  sync: no reply (FORGET never gets one);
 //     async: an error reply is written to the device.
@@ -114,8 +119,7 @@ fn a1_oversize_forget_gets_a_reply_on_the_async_path() {
     let body = ForgetIn { nlookup: 1 };
     let s = run(false, Opcode::Forget as u32, 0x10_1001, body.as_slice(), 8192);
     let a = run(true, Opcode::Forget as u32, 0x10_1001, body.as_slice(), 8192);
-    assert!(s.dev.is_empty(), "sync path wrote {:?}", s.dev);
-    assert_eq!(a.dev.len(), 16, "async path replied to a FORGET");
+    same(&s, &a);
 }
 
 // A2: a reply buffer of fewer than 16 bytes (a virtio-fs FORGET carries no writable descriptor at all).
@@ -125,10 +129,7 @@ fn a2_small_reply_buffer_drops_the_operation_on_the_async_path() {
     let body = ForgetIn { nlookup: 3 };
     let s = run(false, Opcode::Forget as u32, 48, body.as_slice(), 0);
     let a = run(true, Opcode::Forget as u32, 48, body.as_slice(), 0);
-    assert_eq!(s.calls, vec!["forget(1,3)".to_string()]);
-    assert!(s.ret_ok);
-    assert!(a.calls.is_empty(), "async path called {:?}", a.calls);
-    assert!(!a.ret_ok);
+    same(&s, &a);
 }
 
 // A3: every error reply of the async path is followed by a SECOND device write (FuseDevWriter::async_commit has no
@@ -138,9 +139,7 @@ fn a2_small_reply_buffer_drops_the_operation_on_the_async_path() {
 fn a3_async_error_reply_is_written_twice() {
     let s = run(false, 9999, 40, &[], 8192);         // unknown opcode: ENOSYS
     let a = run(true, 9999, 40, &[], 8192);
-    assert_eq!(s.dev.len(), 16);
-    assert_eq!(err_of(&s.dev), -libc::ENOSYS);
-    assert_eq!(a.dev, vec![0xEEu8; 16], "the async path overwrote its own reply with buffer memory");
+    same(&s, &a);
 }
 
 // A4: CREATE whose entry carries attr_flags (FUSE_ATTR_DAX).  sync: fuse_entry_out.attr.flags = attr_flags; async: 0.
@@ -150,11 +149,7 @@ fn a4_async_create_drops_attr_flags() {
     body.extend_from_slice(b"f\0");
     let s = run(false, Opcode::Create as u32, 40 + body.len() as u32, &body, 8192);
     let a = run(true, Opcode::Create as u32, 40 + body.len() as u32, &body, 8192);
-    assert_eq!(s.dev.len(), a.dev.len());
-    assert_ne!(s.dev, a.dev);
-    let flags_off = 16 + 40 + 84;                    // out header, entry_out up to attr, attr.flags
-    assert_eq!(u32::from_le_bytes([s.dev[flags_off], s.dev[flags_off + 1], s.dev[flags_off + 2], s.dev[flags_off + 3]]), FUSE_ATTR_DAX);
-    assert_eq!(u32::from_le_bytes([a.dev[flags_off], a.dev[flags_off + 1], a.dev[flags_off + 2], a.dev[flags_off + 3]]), 0);
+    same(&s, &a);
 }
 
 // A5: WRITE announcing size > MAX_BUFFER_SIZE (1 MiB).  sync: FileSystem::write is called with that size; async: ENOMEM, no call.
@@ -163,8 +158,5 @@ fn a5_async_write_refuses_large_size() {
     let body = WriteIn { fh: 1, offset: 0, size: 0x10_0001, fuse_flags: 0, lock_owner: 0, flags: 0, padding: 0 };
     let s = run(false, Opcode::Write as u32, 80, body.as_slice(), 8192);
     let a = run(true, Opcode::Write as u32, 80, body.as_slice(), 8192);
-    assert_eq!(s.calls, vec!["write(size=1048577)".to_string()]);
-    assert_eq!(err_of(&s.dev), 0);
-    assert!(a.calls.is_empty());
-    assert_eq!(a.dev.len(), 16);
+    same(&s, &a);
 }
